@@ -345,7 +345,34 @@ func checkStxo(e ref.Entry) string {
 	if d := sameStxo(got2, e); d != "" {
 		return "decodeSpentTxOut(record followed by a record): " + d
 	}
+	// Entries written by older versions: the slot after the header code held
+	// the spending transaction's version as a VLQ (one byte for versions below
+	// 128, up to ten for a sign-extended negative version).  They are read in
+	// place (there is no migration), the value is ignored.
+	if e.Height > 0 {
+		for _, ver := range []uint64{1, 2, 127, 128, 16511, 16512, 0x7fffffff, 0xffffffffffffffff} {
+			legacy := append(append(ref.PutVLQ(uint64(e.Height)<<1|b2u(e.CoinBase)), ref.PutVLQ(ver)...), ref.TxOut(uint64(e.Amount), e.Script)...)
+			if re, k, rerr := ref.DecodeSpentTxOut(legacy); rerr != nil || k != len(legacy) || re.Height != e.Height {
+				return "" // the reference does not define this header code / entry: not demanded
+			}
+			var gl blockchain.SpentTxOut
+			n, err := blockchain.VerifDecodeSpentTxOut(append(exact(legacy), want...), &gl)
+			if err != nil || n != len(legacy) {
+				return fmt.Sprintf("decodeSpentTxOut(legacy entry with version field %d: %x)=(%d,%v), want (%d,nil)", ver, trunc(legacy), n, err, len(legacy))
+			}
+			if d := sameStxo(gl, e); d != "" {
+				return fmt.Sprintf("decodeSpentTxOut(legacy entry with version field %d): %s", ver, d)
+			}
+		}
+	}
 	return ""
+}
+
+func b2u(b bool) uint64 {
+	if b {
+		return 1
+	}
+	return 0
 }
 
 // txnsOf builds transactions with the given number of inputs each.
